@@ -256,6 +256,12 @@ def run(tier):
         for seq in itertools.product(alpha, repeat=n):
             for mode in ("before-start", "started") + (("around-start",) if n >= 2 else ()):
                 ps.append({"pubs": list(seq), "mode": mode})
+    # a long backlog (9-14 waiting events): equal priorities, alternating and blocks
+    for n in (9, 12, 14):
+        for pat in ([None] * n, [1, None] * (n // 2) + [None] * (n % 2), [2] * (n // 2) + [1] * (n - n // 2),
+                    [None, None, 1] * (n // 3) + [None] * (n % 3)):
+            for mode in ("started", "before-start"):
+                ps.append({"pubs": [("A" if k % 3 else "B", pr) for k, pr in enumerate(pat)], "mode": mode})
     if not q:       # longer runs of equal priorities (heap shapes beyond 5 entries), one signal
         for n in (6, 7, 8):
             for seq in itertools.product((None, 1), repeat=n):
